@@ -62,6 +62,7 @@ func main() {
 			"a registration issued while a directory occupies the path gcaPubKey.dat (write fault injected from outside, removed right after the call) may be refused; whatever it answers, the model state, the server's key state and every later answer must agree",
 			"the all-zero key is a legitimate GCA key (one sequential history in five registers it, one concurrent batch in five has it among the candidates); nobody can sign for it, so after it is registered nothing at all is honoured",
 			"records that name an existing server key are judged by their effect on the server list (snapshot and GET), not by the HTTP status; what the registered key itself may change about an existing entry is C17's subject, here only a ban by it must take effect",
+			"archive downloads are not part of the model (any answer accepted); they are only used as interference around the registration, whose durability (file, memory, restart, later registrations) is what is judged",
 			"race reports are raised for the operations of this property only: registration against equipment authorization, server authorization and migration orders (plus the GET handlers used for inspection)",
 			"delay injections rely on wall-clock sleeps of 60-100 ms only to widen the window; a too short sleep loses detection, not soundness",
 		},
@@ -84,6 +85,10 @@ func main() {
 			c.Require("seq.winner_orders_accepted", 10)
 			c.Require("existing_server_probes_without_effect", 100)
 			c.Require("existing_server_bans_by_registered_gca_applied", 5)
+			c.Require("arch.trials.hook", 20)
+			c.Require("arch.trials.stress", 5)
+			c.Require("arch.trials_with_download_overlapping_registration", 10)
+			c.Require("arch.restarts", 20)
 			c.Require("seq.restarts", 5)
 			c.Require("seq.winner_is_zero_key", 3)
 			c.Require("seq.failed_persist_registration_refused", 3)
@@ -108,7 +113,9 @@ func plan(tier string, seed int64) []run.Batch {
 	seqChildren, seqPer := 6, 5
 	concChildren, concPer := 8, 5
 	delayRounds := 1
+	archChildren, archPer := 6, 20
 	if tier == "thorough" {
+		archChildren = 60
 		seqChildren, seqPer = 80, 5
 		concChildren, concPer = 400, 5
 		delayRounds = 5
@@ -130,6 +137,15 @@ func plan(tier string, seed int64) []run.Batch {
 	}
 	for i := 0; i < seqChildren; i++ {
 		bs = append(bs, run.Batch{Kind: "seq", Seed: next(), N: seqPer, TimeoutS: 240})
+	}
+	// archive downloads racing the registration; half of the children in the race build
+	// (slower critical sections), half plain (real timing)
+	for i := 0; i < archChildren; i++ {
+		v := ""
+		if i%2 == 0 {
+			v = "race"
+		}
+		bs = append(bs, run.Batch{Kind: "arch", Seed: next(), N: archPer, Variant: v, TimeoutS: 240})
 	}
 	return bs
 }
@@ -817,6 +833,10 @@ func child(b run.Batch, r *ev.Result) {
 	case "conc":
 		for i := 0; i < b.N && r.NumViolations() < 5; i++ {
 			concBatch(b, r, sink, i)
+		}
+	case "arch":
+		for i := 0; i < b.N && r.NumViolations() < 5; i++ {
+			archiveRace(b, r, sink, i)
 		}
 	case "delay":
 		drv.GateRotation(true)
@@ -1578,6 +1598,161 @@ func concBatch(b run.Batch, r *ev.Result, sink uint16, idx int) {
 	x.linearizable(timeout)
 	if idx == 0 {
 		r.Sample(map[string]interface{}{"kind": "conc", "k": k, "gated": gated, "calls": len(x.hist), "overlapping_valid_registrations": overlapping, "history_head": x.head(6)})
+	}
+}
+
+// ---------------------------------------------------------------- (d) archive downloads racing the registration
+
+func getArchive(port uint16) int {
+	resp, err := client.Get(fmt.Sprintf("http://127.0.0.1:%d/api/v1/archive", port))
+	if err != nil {
+		return 0
+	}
+	io.Copy(io.Discard, resp.Body)
+	resp.Body.Close()
+	return resp.StatusCode
+}
+
+// archiveRace: on a fresh unregistered server the public archive endpoint is
+// hit while the one valid registration commits. The archive endpoint is no
+// part of the model (any answer is accepted: an unregistered server has no
+// gcaPubKey.dat and answers 500, the limiter answers 429); what is judged is
+// the registration's durability: at quiescence gcaPubKey.dat must hold the
+// registered key, after a restart the key must still be registered, a further
+// registration signed by the temporary key must be refused and the registered
+// key's orders accepted. Modes: "hook" (the registration handler, stopped at
+// register.ready, starts the downloads in new goroutines, waits d in 0..1.5 ms and
+// goes on into its critical section, so the downloads reach the server lock
+// while the registration holds it), "stress" (downloads and registration start
+// together from the client side with a random offset).
+func archiveRace(b run.Batch, r *ev.Result, sink uint16, idx int) {
+	seed := b.Seed + int64(idx)*104729
+	x, err := newCtx(b, r, sink, fmt.Sprintf("arch%d", idx), seed)
+	if err != nil {
+		r.Inconc("cannot prepare server directory: " + err.Error())
+		return
+	}
+	defer x.close()
+	if err := x.srv.Start(); err != nil {
+		r.Inconc("server start: " + err.Error())
+		return
+	}
+	g := x.g
+	winner := refenc.GenKey(g.rng)
+	reg := g.register(winner.Pub, g.temp, "temp", "valid")
+	mode := "hook"
+	if idx%4 == 3 {
+		mode = "stress"
+	}
+	const downloads = 3 // the limiter admits 3 per 60 ms window in test builds
+	wait := time.Duration(g.rng.Intn(1500)) * time.Microsecond
+	// warm connections (the equipment endpoint is not rate limited)
+	var wg sync.WaitGroup
+	for i := 0; i < downloads+1; i++ {
+		wg.Add(1)
+		go func() {
+			defer wg.Done()
+			if resp, err := client.Get(fmt.Sprintf("http://127.0.0.1:%d/api/v1/equipment", x.srv.HTTP)); err == nil {
+				io.Copy(io.Discard, resp.Body)
+				resp.Body.Close()
+			}
+		}()
+	}
+	wg.Wait()
+	type span struct {
+		t0, t1 int64
+		st     int
+	}
+	spans := make([]span, downloads)
+	x.start = time.Now()
+	fire := func() {
+		for i := 0; i < downloads; i++ {
+			wg.Add(1)
+			go func(i int) {
+				defer wg.Done()
+				t0 := time.Since(x.start).Nanoseconds()
+				st := getArchive(x.srv.HTTP)
+				spans[i] = span{t0, time.Since(x.start).Nanoseconds(), st}
+			}(i)
+		}
+	}
+	spin := func(d time.Duration) {
+		for t := time.Now(); time.Since(t) < d; {
+		}
+	}
+	var fired atomic.Bool
+	if mode == "hook" {
+		server.VerifSetHook("register.ready", func(*server.GCAServer) {
+			if fired.Swap(true) {
+				return
+			}
+			fire()
+			spin(wait)
+		})
+	} else {
+		fire()
+		spin(wait)
+	}
+	ok := x.judge(0, reg)
+	wg.Wait()
+	if mode == "hook" {
+		server.VerifSetHook("register.ready", func(*server.GCAServer) {})
+	}
+	if !ok {
+		return
+	}
+	r.Eval(1)
+	r.Count("arch.trials."+mode, 1)
+	var regRec rec
+	for _, rc := range x.hist {
+		if rc.C == reg {
+			regRec = rc
+		}
+	}
+	overl := 0
+	for _, sp := range spans {
+		r.Count(fmt.Sprintf("arch.download_status.%d", sp.st), 1)
+		if sp.st != 429 && sp.st != 0 && sp.t0 <= regRec.Ret && regRec.Call <= sp.t1 {
+			overl++
+		}
+	}
+	if overl > 0 {
+		r.Count("arch.trials_with_download_overlapping_registration", 1)
+		r.Nontrivial(fmt.Sprintf("arch/%d", seed))
+	}
+	if len(x.states) != 1 || x.states[0] == "" {
+		return // the registration's exchange failed and it was not executed
+	}
+	r.Count("arch.registrations_accepted", 1)
+	// (a) quiescence: file against memory against the accepted registration
+	x.inspect("after the registration that was raced by archive downloads")
+	if x.bad {
+		return
+	}
+	getArchive(x.srv.HTTP)
+	x.inspect("after a further archive download")
+	if x.bad {
+		return
+	}
+	// (b) restart: still registered, nobody else gets in
+	if !x.restart() {
+		return
+	}
+	r.Count("arch.restarts", 1)
+	x.inspect("after the restart that followed the raced registration")
+	if x.bad {
+		return
+	}
+	loser := refenc.GenKey(g.rng)
+	for _, c := range []*call{g.register(loser.Pub, g.temp, "temp-new-key", "valid"), reg,
+		g.order(g.kind(), &winner, "registered-gca", "valid"), g.order(g.kind(), &loser, "loser", "valid"), g.order(g.kind(), &g.temp, "temp", "valid")} {
+		if !x.judge(0, c) {
+			return
+		}
+	}
+	x.inspect("end")
+	if idx == 0 {
+		r.Sample(map[string]interface{}{"kind": "arch", "mode": mode, "wait_us": int(wait / time.Microsecond), "download_status": []int{spans[0].st, spans[1].st, spans[2].st}, "registration": x.head(1)})
 	}
 }
 
